@@ -10,7 +10,7 @@ not depend on how many names a store can hold — *what the server acknowledged 
   * SETACTIVE answered OK names a stored script; at most one ACTIVE mark; a script marked ACTIVE is not deleted with an OK;
   * before authentication every script command is NO and no store changes; one user's script never shows for the other.
 
-The single-slot design itself departs from the map in one way that is recorded as known finding D79: the one script is active
+The single-slot design itself departs from the map in one way that is recorded as known finding D80: the one script is active
 by being stored (no SETACTIVE needed, none possible to undo) and DELETESCRIPT removes it although LISTSCRIPTS marks it ACTIVE.
 """
 from __future__ import annotations
